@@ -846,18 +846,27 @@ class Tr:
     #        it = l.begin()                    -> l_begin l
     #        index.max_load_factor(f)          -> no effect on the model, but must come BEFORE reserve
     #        index.reserve(n)                  -> the index may hold n entries without rehashing: cap := n
+    EMPTY_KINDS = ("umap", "mmap", "tmap", "kmap")      # containers whose default construction is the empty content
+
     def ctor_init(self, F, member, c, env):
-        coq, kind = self.f_by_cpp.get(member, (None, None))
-        if member == "m_lock":
+        if member in ("m_lock",) + tuple(self.sc.get("ctor_ignore", ())):
             return
+        coq, kind = self.f_by_cpp.get(member, (None, None))
         if coq is None:
             raise Unsupported("constructor initialises unknown member %s" % member)
-        if kind == "vec" and c["k"] == "ref" and c["n"] in env and env[c["n"]][1] == "nat":
+        isn = c["k"] == "ref" and c["n"] in env and env[c["n"]][1] == "nat"
+        if kind == "vec" and isn:
             F[coq] = "(repeat %s %s)" % (self.sc["elem_default"], env[c["n"]][0])
-        elif kind == "list" and c["k"] == "ref" and c["n"] in env and env[c["n"]][1] == "nat":
+        elif kind == "list" and isn and self.sc.get("cells"):
+            # std::list<element>(n): n nodes, each holding a default element (the element lives in the node)
+            F[coq] = "(seq 0 %s)" % env[c["n"]][0]
+            F[self.sc["cells"]] = "(repeat %s %s)" % (self.sc["elem_default"], env[c["n"]][0])
+        elif kind in ("list", "natvec") and isn:
+            # n value-initialised size_t: the formal structure identifies a node / slot with the value it
+            # holds, which is only right once std::iota(begin, end, 0) has run
             F[coq] = "(seq 0 %s)" % env[c["n"]][0]
             self.unnumbered.add(coq)
-        elif kind == "umap" and c["k"] == "construct" and not c["a"]:
+        elif (kind in self.EMPTY_KINDS or kind == "list") and c["k"] == "construct" and not c["a"]:
             F[coq] = "[]"
         elif kind == "liter" and c["k"] == "construct" and not c["a"]:
             F[coq] = None
@@ -866,8 +875,12 @@ class Tr:
             if d is None or d["k"] != "int":
                 raise Unsupported("default member initialiser of %s" % member)
             F[coq] = str(d["n"])
+        elif kind == "durms" and c["k"] == "ref" and c["n"] in env and env[c["n"]][1] == "dur":
+            F[coq] = env[c["n"]][0]
         else:
             raise Unsupported("member initialiser %s(%s)" % (member, show(c)[:120]))
+        for f, t in self.sc.get("ctor_also", {}).get(coq, {}).items():
+            F[f] = t
 
     def ctor_stmt(self, F, c, env):
         k = c["k"]
@@ -876,7 +889,7 @@ class Tr:
             if b["k"] == "mcall" and b["n"] == "begin" and e["k"] == "mcall" and e["n"] == "end" and \
                     b["a"][0]["k"] == "field" and e["a"][0] == b["a"][0] and z["k"] == "int" and str(z["n"]) == "0":
                 coq, kind = self.f_by_cpp[b["a"][0]["n"]]
-                if kind == "list" and coq in self.unnumbered:
+                if kind in ("list", "natvec") and coq in self.unnumbered:
                     self.unnumbered.discard(coq)
                     return
             raise Unsupported("std::iota other than over a whole list member from 0")
@@ -904,12 +917,19 @@ class Tr:
                 return
         raise Unsupported("constructor statement %s" % show(c)[:160])
 
+    def ctor_param(self, pn, t, env, params):
+        """family hook: a constructor parameter with a special representation (True = handled)"""
+        return False
+
     def translate_ctor(self):
         if len(self.ctors) != 1:
             raise Unsupported("%d user-provided constructors" % len(self.ctors))
         ps, inits, body = self.ctors[0]
         env, params = {}, []
         for pn, t in ps:
+            r = self.ctor_param(pn, t, env, params)
+            if r:
+                continue
             if t == "float":
                 env[pn] = ("p_" + pn, "float")      # only ever handed to max_load_factor
                 continue
@@ -917,6 +937,7 @@ class Tr:
             env[pn] = ("p_" + pn, kd)
             params.append("(p_%s : %s)" % (pn, self.COQTY[kd]))
         F = {f: None for f, _, _ in self.sc["fields"]}
+        F.update(self.sc.get("ctor_const", {}))      # record fields without a C++ counterpart
         self.unnumbered, self.reserved = set(), False
         for member, c in inits:
             self.ctor_init(F, member, c, env)
@@ -927,6 +948,9 @@ class Tr:
         missing = [f for f, v in F.items() if v is None]
         if missing:
             raise Unsupported("constructor leaves %s unset" % missing)
+        return self.ctor_record(F, params)
+
+    def ctor_record(self, F, params):
         rec = "; ".join("%s := %s" % (f, F[f]) for f, _, _ in self.sc["fields"])
         return "Definition g_init %s : %s %s := {| %s |}." % (" ".join(params), self.sc["state"], self.sc["state_args"], rec)
 
